@@ -5,15 +5,22 @@
 (b) the four TaskHooks themselves raise;
 (c) generated histories of cached / uncached / rerun submissions (succeeding and failing tasks, a
     two-node workflow, debug and cf workers) into one cache root with counting hooks.
+Where a job can fail is a dimension of the task kinds: in its body (python_fail, shell_fail, a
+workflow node) or BEFORE its body, while its file inputs are staged into the job directory (a set
+of files that cannot be made siblings / cannot be hard-linked: stagefail_*; python_files is the
+same task with a value that can be staged).
 
 Oracle, evaluated in the process that made the call, right after the call returned or raised:
   * os.getcwd() is what it was before the call;
   * no `*_info.json` and no `*.lock` file is left below the cache root;
   * if a body was entered, the directory of that job holds `_job.pklz` and `_result.pklz`
-    (left open when the injected exception *is* the failure of the final save itself);
+    (left open when the injected exception *is* the failure of the final save itself); without an
+    injected fault (histories, the un-faulted reference runs) EVERY job directory holds both,
+    whatever made the job fail;
   * `pre_run_task` and `post_run_task` were each called exactly once per body execution of that job
-    and not at all for a cache hit (an attempt that was aborted before its body is neither: counted,
-    not judged, but never more than one call).
+    and not at all for a cache hit (an attempt that was aborted before its body - by an injected
+    fault or because its inputs could not be staged - is neither: counted, not judged, but never
+    more than one call).
 """
 from __future__ import annotations
 
@@ -36,9 +43,12 @@ RULE = (
     "cases = (task kind, event index k): an InjectedError(Exception) is raised at the k-th executed "
     "line event of the job path (Job.run / run_async / _populate_filesystem, result.save / "
     "record_error, Audit.start_audit / finalize_audit, task _run) for EVERY k of a dry run - quick: "
-    "python task succeeding and failing; thorough: also shell tasks and the two-node workflow under "
-    "debug and cf; plus (kind, raising hook) for the four hooks; plus generated histories (1-6 "
-    "submissions of 8 task kinds x inputs x rerun flag into one cache root). Non-trivial = the fault "
+    "python task succeeding and failing; thorough: also shell tasks, the two-node workflow under "
+    "debug and cf and a python task whose file inputs cannot be staged; plus (kind, raising hook) "
+    "for the four hooks; plus generated histories (2-6 submissions of 13 task kinds - python/shell "
+    "succeeding and failing in the body, python with a set of files that can be staged | fails to "
+    "be staged (equal names, other device), workflow; debug and cf - x inputs x rerun flag into one "
+    "cache root); plus an un-faulted reference run of every file-staging kind. Non-trivial = the fault "
     "fired at the expected (function, line) / the hook raised / the history contains a cache hit and "
     "a real execution; distinct = the case spec."
 )
@@ -48,6 +58,10 @@ ASSUMPTIONS = [
     "a hook whose own call line is the injection point counts as called",
     "the cwd clause is evaluated in the submitting process (cwd of cf pool workers is not observed)",
     "hooks are installed on the task (single tasks) resp. on both nodes (workflows)",
+    "a job whose input staging fails is a failed run (cwd, bookkeeping files, job record + result "
+    "are demanded); whether it is an 'actual execution' for the hooks is left open (0 or 1 call each)",
+    "the other-device staging failure uses an existing read-only file outside the scratch area as "
+    "input (it is only read)",
 ]
 SHARDS = {"quick": 16, "thorough": 16}
 WALL = {"quick": 200, "thorough": 1200}
@@ -55,7 +69,10 @@ EXHAUSTIVE_WHEN_COMPLETED = True
 EXHAUSTIVE_NOTE = "all executed line events of the job path for the listed kinds, exception mode"
 
 QUICK_KINDS = ["python", "python_fail"]
-THOROUGH_KINDS = ["python", "python_fail", "shell", "shell_fail", "wf_debug", "wf_cf"]
+THOROUGH_KINDS = ["python", "python_fail", "shell", "shell_fail", "wf_debug", "wf_cf",
+                  "stagefail_names"]
+STAGE_KINDS = ["python_files", "stagefail_names", "stagefail_mount", "python_files_cf",
+               "stagefail_names_cf"]
 RUN_TIMEOUT = 300.0     # upper bound; see timeout_for()
 DRY_WALL: dict = {}     # kind -> wall seconds of an un-faulted run in this process
 X = 3
@@ -164,10 +181,11 @@ def judge(kind, obs, res, region, fired=None, raising_hook=None, expect_exec=Non
     in_final_save = bool(fired) and (
         fired["function"] in ("save", "copyfile_workflow") or "save(" in (fired.get("source") or "")
     )
-    if expect_exec is not None:
-        # history: every call has returned, so every job directory must be complete
+    if expect_exec is not None or (fired is None and region == "none"):
+        # history / un-faulted run: every call has returned, so every job directory must be complete
         if any(not (e["job"] and e["result"]) for e in obs["dirs"]):
-            issues.append("job-dir-incomplete-after-body")
+            issues.append("job-dir-incomplete-after-body" if sum(obs["bodies"].values())
+                          else "job-dir-incomplete-after-attempt-without-body")
     else:
         for tag, n in obs["bodies"].items():
             job = tag_job(tag)
@@ -218,7 +236,8 @@ def judge(kind, obs, res, region, fired=None, raising_hook=None, expect_exec=Non
         for h in ("pre_run_task", "post_run_task"):
             n = obs["hooks"].get(f"{h} {job}", 0)
             if body == 0:
-                if n > 1 or (expect_exec is not None and n != 0):
+                attempt = expect_exec is not None and job in expect_exec   # staging failed: open
+                if n > 1 or (expect_exec is not None and n != 0 and not attempt):
                     recs.append(dict(signature=f"hook-called-without-execution:{h}", observed={job: n},
                                      expected=0 if expect_exec is not None else "<= 1", detail=detail))
                 elif n == 1:
@@ -374,7 +393,7 @@ def check_hook(case):
 
 # ------------------------------------------------------------------------------- histories
 HIST_KINDS = ["python", "python_fail", "shell", "shell_fail", "wf_debug", "python_cf", "wf_cf",
-              "python_fail_cf"]
+              "python_fail_cf"] + STAGE_KINDS
 
 
 def model_step(cache: set, kind, x, rerun):
@@ -389,6 +408,14 @@ def model_step(cache: set, kind, x, rerun):
         return {"main": 1}
     if t in ("FBoom", "ShFail"):
         return {"main": 1}  # failures are never cached as success
+    if t == "FStage":
+        if k["stage"] != "ok":
+            return {"main": 0}  # an attempt (never a cache hit) that fails before its body
+        key = (t, x)
+        if key in cache and not rerun:
+            return {}
+        cache.add(key)
+        return {"main": 1}
     if t == "FWf":
         if ("W", x) in cache and not rerun:
             return {}
@@ -491,6 +518,10 @@ def run(sh):
             continue  # a node hook raising under cf never returns on this tree (C18): thorough only
         for hook in ("pre_run", "pre_run_task", "post_run_task", "post_run"):
             cases.append(dict(kind=kind, mode="hook", hook=hook))
+    # un-faulted reference run of every kind that is not enumerated above (one-step history)
+    for kind in hist_kinds():
+        if kind not in kinds:
+            cases.append(dict(mode="history", kind=kind, ops=[dict(kind=kind, x=X, rerun=False)]))
     scratchdir.rm(base)
     if run_regions() is None:
         sh.note("L1 unavailable: Job.run structure not recognised; regions reported as 'unknown'")
@@ -508,6 +539,8 @@ def run(sh):
         recs = check_case(case)
         info = dict(LAST)
         nontrivial = bool(info.get("fired")) and not info.get("mismatch")
+        if case["mode"] == "history":
+            nontrivial = True       # a reference run: the kind ran un-faulted and was judged
         labels = [f"mode:{case['mode']}", f"kind:{case['kind']}", f"outcome:{info.get('outcome')}",
                   f"region:{info.get('region')}"]
         if info.get("where"):
@@ -528,9 +561,18 @@ def run(sh):
     run_histories(sh, sh.budget(64, 1200), "hist2")
 
 
+def hist_kinds(sh=None):
+    """HIST_KINDS, without the other-device staging failure where the scratch area offers none"""
+    if G.other_device_file(scratchdir.root()) is not None:
+        return list(HIST_KINDS)
+    if sh is not None:
+        sh.note("no file on another device than the scratch area: kind stagefail_mount left out")
+    return [k for k in HIST_KINDS if k != "stagefail_mount"]
+
+
 def run_histories(sh, budget, tag):
     op = st.fixed_dictionaries(dict(
-        kind=st.sampled_from(HIST_KINDS),
+        kind=st.sampled_from(hist_kinds(sh)),
         x=st.integers(min_value=0, max_value=2),
         rerun=st.sampled_from([False, False, False, True]),
     ))
@@ -540,9 +582,14 @@ def run_histories(sh, budget, tag):
         case = dict(mode="history", ops=ops)
         recs = check_case(case)
         info = dict(LAST)
-        sh.record_case(case, bool(info.get("fired")), labels=[
-            "mode:history", f"outcome:{info.get('outcome')}",
-            "history_with_hit_and_execution" if info.get("fired") else "history_one_sided"])
+        labels = ["mode:history", f"outcome:{info.get('outcome')}",
+                  "history_with_hit_and_execution" if info.get("fired") else "history_one_sided"]
+        stages = {G.KINDS[o["kind"]].get("stage") for o in ops} - {None}
+        if stages - {"ok"}:
+            labels.append("history_with_staging_failure")
+        if "ok" in stages:
+            labels.append("history_with_staged_files")
+        sh.record_case(case, bool(info.get("fired")), labels=labels)
         sh.count("history_cache_hits", info.get("hits", 0))
         sh.count("history_executions", info.get("execs", 0))
         sh.handle(case, recs, raise_unattributed=True)
